@@ -155,6 +155,28 @@ theorem C05_purge_listeners (evs : List Event) (order : List Nat → List Nat) (
       notifyRound_ok, pure, Except.pure]
   exact ⟨_, reported, hd, hc, rfl, notifyRound_called _ _, notifyRound_called _ _, notifyRound_ok _ _, rfl⟩
 
+/-- **C05 (the purge, listener by listener).**  "Reports each to listeners exactly once" is about *every* listener: `async_updates`
+passes one `records` object to all of them, and because that object is a list (generated leaf `purge_updates_is_list`) each listener
+registered when the purge starts — not only the first of the set — is handed the `(record, record)` pairs of exactly the purged records. -/
+theorem C05_purge_each_listener_told (evs : List Event) (order : List Nat → List Nat) (ls : List Nat) (now : Ms)
+    (react1 react2 : Nat → List ListenerAct) :
+    ∃ d reported, deliverPurge lower order (cacheAfter lower evs) ls now react1 react2 = .ok d
+      ∧ expire (Cache.ops lower) (cacheAfter lower evs) now = .ok (d.cache, reported)
+      ∧ (∀ l ∈ order ls, d.told Gen.Cache.purge_updates_is_list l = some (reported.map (fun r => (r, some r))))
+      ∧ (∀ l, l ∉ order ls → d.told Gen.Cache.purge_updates_is_list l = none) := by
+  obtain ⟨d, reported, hd, hc, hp, h1, _⟩ := C05_purge_listeners lower evs order ls now react1 react2
+  refine ⟨d, reported, hd, hc, fun l hl => ?_, fun l hl => ?_⟩
+  · simp [PurgeDelivery.told, toldAt, purge_updates_is_list_eq, h1, hl, hp]
+  · simp [PurgeDelivery.told, h1, hl]
+
+/-- with a generator in place of the list only the first listener of the set would be told: listener 2 of `[1, 2]` gets nothing -/
+example :
+    let t1 : Rec := ⟨"a.local.", 16, 1, false, 1, 0, .txt [1]⟩
+    ((deliverPurge id id (cacheAfter id [.datagram 1000 [t1]]) [1, 2] 2000 (fun _ => []) (fun _ => [])).toOption.map
+      (fun d => ((d.told false 1).map List.length, (d.told false 2).map List.length, (d.told true 2).map List.length)))
+      = some (some 1, some 0, some 1) := by
+  decide
+
 /-- **C05 (the purge at listener registration, as the listeners see it).**  `async_add_listener(l, question)` (every browser and
 lookup start) purges before it adds `l`.  After any history, with any listener set: it does not raise; the cache the listeners see is
 the purged one, swept at the one instant read; if nothing expired **nobody is called** (unlike the periodic purge); otherwise every
